@@ -627,49 +627,67 @@ pub fn oracle_c04(ctx: &mut Ctx, idx: usize, c: &SCase, r: &SearchAlgorithmResul
 }
 
 fn oracle_c04_inner(ctx: &mut Ctx, idx: usize, c: &SCase, r: &SearchAlgorithmResult) {
-    let endpoint_edges: HashSet<usize> = if c.edge_oriented {
-        // the origin / destination edges are given by the query, not chosen by the search
-        [Some(c.source), c.target].iter().flatten().cloned().collect()
-    } else {
-        HashSet::new()
+    // Edge-oriented queries: the origin / destination edges are given by the query, not chosen by the
+    // search; `run_edge_oriented` attaches them without consulting the frontier model.  They are judged
+    // under keys of their own (recorded findings, by design of the wrapper), by POSITION — the first and
+    // the last element of a route, the wrapper's own tree entries — so that an inner element carrying a
+    // forbidden edge is still reported under the ordinary keys.
+    let eo_target = if c.edge_oriented { c.target } else { None };
+    let adjacent = match eo_target {
+        Some(t) => c.edge_oriented && t != c.source && c.edges[c.source].1 == c.edges[t].0,
+        None => false,
     };
     for t in &r.trees {
         for (k, br) in t.iter() {
             let e = br.edge_traversal.edge_id.0;
-            if endpoint_edges.contains(&e) {
-                continue;
-            }
+            // the entries the wrapper itself writes: the origin edge under its head (destination-less
+            // and adjacent arm), the destination edge under its head (adjacent arm)
+            let wrapper_entry = c.edge_oriented
+                && ((e == c.source && k.0 == c.edges[c.source].1 && (c.target.is_none() || adjacent))
+                    || (adjacent && Some(e) == eo_target && k.0 == c.edges[e].1));
             if let Some(why) = edge_forbidden(c, e) {
-                ctx.fail(idx, "tree/forbidden-edge", format!("tree entry {} uses edge {}: {}", k.0, e, why));
+                if wrapper_entry {
+                    ctx.fail(idx, "tree/forbidden-endpoint-edge-edge-oriented", format!("tree entry {} carries the query's origin/destination edge {}: {}", k.0, e, why));
+                } else {
+                    ctx.fail(idx, "tree/forbidden-edge", format!("tree entry {} uses edge {}: {}", k.0, e, why));
+                }
             }
         }
     }
     for route in &r.routes {
         let ids: Vec<usize> = route.iter().map(|e| e.edge_id.0).collect();
-        for e in &ids {
-            if endpoint_edges.contains(e) {
-                continue;
-            }
+        let n = ids.len();
+        // positions of the wrapper's elements: first and last of an edge-oriented route with a destination
+        let is_endpoint = |i: usize| eo_target.is_some() && n >= 2 && (i == 0 || i + 1 == n);
+        for (i, e) in ids.iter().enumerate() {
             if let Some(why) = edge_forbidden(c, *e) {
-                ctx.fail(idx, "route/forbidden-edge", format!("route {:?} uses edge {}: {}", ids, e, why));
+                if is_endpoint(i) {
+                    ctx.fail(idx, "route/forbidden-endpoint-edge-edge-oriented", format!("route {:?} {} with the query's edge {}: {}", ids, if i == 0 { "starts" } else { "ends" }, e, why));
+                } else {
+                    ctx.fail(idx, "route/forbidden-edge", format!("route {:?} uses edge {}: {}", ids, e, why));
+                }
             }
         }
         for f in &c.frontier {
             if let Fr::TurnRestriction(pairs) = f {
-                for w in ids.windows(2) {
-                    // travel order
-                    let (p, n) = if c.reverse { (w[1], w[0]) } else { (w[0], w[1]) };
-                    if c.edge_oriented && (endpoint_edges.contains(&p) || endpoint_edges.contains(&n)) {
+                for (i, w) in ids.windows(2).enumerate() {
+                    if is_endpoint(i) || is_endpoint(i + 1) {
                         // the seams between the origin / destination edge and the inner route are
                         // never submitted to the frontier model by the edge-oriented wrapper
-                        if pairs.contains(&(p, n)) {
-                            ctx.fail(idx, "route/restricted-turn-at-edge-oriented-seam", format!("route {:?} takes restricted turn ({},{}) at the origin/destination edge", ids, p, n));
+                        if pairs.contains(&(w[0], w[1])) {
+                            ctx.fail(idx, "route/restricted-turn-at-edge-oriented-seam", format!("route {:?} takes restricted turn ({},{}) at the origin/destination edge", ids, w[0], w[1]));
                         }
                         continue;
                     }
-                    if pairs.contains(&(p, n)) {
-                        let key = if c.reverse { "route/restricted-turn-reverse-search" } else { "route/restricted-turn" };
-                        ctx.fail(idx, key, format!("route {:?} takes restricted turn ({},{}) (wf {:?})", ids, p, n, effective_wf(c)));
+                    // what the search submits: (previous edge, edge) in SEARCH order — accepted pairs
+                    // are never listed (Dijkstra; A* unless a vertex was re-opened)
+                    if pairs.contains(&(w[0], w[1])) {
+                        ctx.fail(idx, "route/restricted-turn", format!("route {:?} ({}) takes the listed pair ({},{}) in search order (wf {:?})", ids, if c.reverse { "reverse search" } else { "forward search" }, w[0], w[1], effective_wf(c)));
+                    }
+                    // a reverse route read in travel order: the restrictions are listed in travel order,
+                    // the reverse search shows the frontier model (later edge, earlier edge)
+                    if c.reverse && pairs.contains(&(w[1], w[0])) {
+                        ctx.fail(idx, "route/restricted-turn-reverse-search", format!("reverse route {:?} (search order) travels the restricted turn ({},{}) (wf {:?})", ids, w[1], w[0], effective_wf(c)));
                     }
                 }
             }
@@ -902,7 +920,50 @@ fn corpus(p: Prop) -> Vec<(SCase, LenStyle)> {
             c.source = 0;
             c.target = Some(2);
             c.frontier = vec![Fr::TurnRestriction(vec![(0, 1)])];
-            v.push((c, LenStyle::Generic));
+            v.push((c.clone(), LenStyle::Generic));
+            // edge-oriented endpoint edges are never validated: origin edge 0 and destination edge 2 both
+            // cut, the answer is still [0,1,2] (Lean C04.edge_oriented_endpoint_edges_counterexample (a))
+            let mut c2 = c.clone();
+            c2.frontier = vec![Fr::EdgeCut(vec![0, 2])];
+            v.push((c2, LenStyle::Generic));
+            // ... nor anything in the adjacent arm: destination edge 1 cut and the turn (0,1) restricted,
+            // the query from edge 0 to edge 1 answers [0,1] (counterexample (b))
+            let mut c3 = c.clone();
+            c3.target = Some(1);
+            c3.frontier = vec![Fr::EdgeCut(vec![1]), Fr::TurnRestriction(vec![(0, 1)])];
+            v.push((c3, LenStyle::Generic));
+            // destination-less: the origin edge's own tree entry carries the cut origin edge
+            let mut c4 = c.clone();
+            c4.target = None;
+            c4.frontier = vec![Fr::EdgeCut(vec![0])];
+            v.push((c4, LenStyle::Generic));
+            // a reverse search shows the frontier model the pairs in search order: reverse Dijkstra from
+            // vertex 2 back to vertex 0 with the turn (0,1) restricted returns [1,0] — travelled forward,
+            // the listed turn (Lean C04.reverse_search_restricted_turn_counterexample)
+            let mut c5 = c.clone();
+            c5.edge_oriented = false;
+            c5.reverse = true;
+            c5.source = 2;
+            c5.target = Some(0);
+            c5.astar = None;
+            v.push((c5, LenStyle::Generic));
+            // no axles: weight per axle is +inf, the per-axle limit on edge 1 (however generous) refuses the
+            // short way 0 -> 1 -> 2 -> 3 and the answer is the detour [0,3]; the total-weight limit on edge 2
+            // alone would not
+            let mut c6 = base(vec![(0, 1, 10.0), (1, 2, 10.0), (2, 3, 10.0), (1, 3, 100.0)], 4);
+            c6.target = Some(3);
+            c6.frontier = vec![Fr::Vehicle {
+                rows: vec![(1, vec![Restr::Weight { per_axle: true, limit: 1.0e9, unit: WeightUnit::Kg }]), (2, vec![Restr::Weight { per_axle: false, limit: 1.0e9, unit: WeightUnit::Kg }])],
+                params: VParams {
+                    height: (1.0, DistanceUnit::Meters),
+                    width: (1.0, DistanceUnit::Meters),
+                    total_length: (1.0, DistanceUnit::Meters),
+                    trailer_length: (1.0, DistanceUnit::Meters),
+                    total_weight: (1000.0, WeightUnit::Kg),
+                    axles: 0,
+                },
+            }];
+            v.push((c6, LenStyle::Generic));
         }
         Prop::C10 => {
             let mut c = base(vec![(0, 1, 1.0), (1, 2, 1.0), (2, 3, 1.0)], 4);
@@ -1087,6 +1148,9 @@ pub fn run(ctx: &mut Ctx, p: Prop) -> &'static str {
         for d in describe(&c) {
             ctx.count(d);
         }
+        if c.frontier.iter().any(|f| matches!(f, Fr::Vehicle { params, .. } if params.axles == 0)) {
+            ctx.count("vehicle_zero_axles");
+        }
         match &ex.outcome {
             Outcome::Ok(r) => {
                 ctx.count("outcome_ok");
@@ -1204,7 +1268,9 @@ fn shape_for(p: Prop, c: &mut SCase, rng: &mut Rng) {
             c.query_wf = None;
         }
         Prop::C04 => {
-            c.reverse = false;
+            // the direction stays as generated (one case in four is a reverse search): forbidden edges
+            // are judged in both directions, restricted turns in search order (what the search submits)
+            // and, for a reverse route, in travel order under the key of the recorded finding
             if !c.frontier.iter().any(|f| matches!(f, Fr::Vehicle { .. })) && rng.chance(1, 2) {
                 // a vehicle-restriction model on most edges, limits straddling the vehicle's dimensions
                 let n_e = c.edges.len();
@@ -1214,7 +1280,8 @@ fn shape_for(p: Prop, c: &mut SCase, rng: &mut Rng) {
                     total_length: (1.0 + rng.small_decimal(30, 0), *rng.pick(&DU)),
                     trailer_length: (1.0 + rng.small_decimal(20, 0), *rng.pick(&DU)),
                     total_weight: (1.0 + rng.small_decimal(40, 0), *rng.pick(&WU)),
-                    axles: 1 + rng.below(5) as u8,
+                    // `from_query` accepts 0 axles: weight per axle is then +inf (every per-axle limit refuses)
+                    axles: if rng.chance(1, 8) { 0 } else { 1 + rng.below(5) as u8 },
                 };
                 let factors = [0.9, 0.96, 0.995, 1.005, 1.04, 1.1, 2.0, 3.0];
                 let picked: Vec<usize> = (0..n_e).filter(|_| rng.chance(2, 3)).collect();
@@ -1226,7 +1293,8 @@ fn shape_for(p: Prop, c: &mut SCase, rng: &mut Rng) {
                             let unit = *rng.pick(&WU);
                             let per_axle = rng.chance(1, 2);
                             let w = params.total_weight.0 * si_w(&params.total_weight.1) / si_w(&unit);
-                            let w = if per_axle { w / params.axles as f64 } else { w };
+                            // limits stay finite for a vehicle without axles (as if it had one)
+                            let w = if per_axle { w / params.axles.max(1) as f64 } else { w };
                             Restr::Weight { per_axle, limit: w * f, unit }
                         } else {
                             let which = 2 + rng.below(4) as u8;
